@@ -447,6 +447,150 @@ def r2_field_sets(run, w):
          "each schema field is derived from the metadata field of the same name (reverseColId "
          "from reverseCol)", meta_fields == want and ok_pos, fi=bs.fi, node=ctors[0])
   _r2_update_translation(run, R2, w, mprops)
+  _r2_noop_filter(run, R2, w)
+
+
+def _r2_noop_filter(run, R2, w):
+  """doModifyColumn drops from col_info the properties that are "unchanged" and emits no
+  ModifyColumn when nothing is left, while its callers still write the requested values to the
+  column record: a property may count as unchanged only when it *equals* the schema's value."""
+  fn = H.inlined_fn(w, "useractions.UserActions.doModifyColumn")
+  cfg = fn.cfg
+  du = DefUse(fn)
+  rd = H.ReachDefs(fn, du)
+  names = w.action_types()
+  p_info = fn.fi.params()[3]
+  gws = [n for (n, c) in H.gateway_sites(fn)
+         if (E.action_ctor(H.deref(fn, c.args[0]), names) or (None,))[0] == "ModifyColumn"]
+  if len(gws) != 1:
+    raise AnalysisError("doModifyColumn: expected exactly one gateway(ModifyColumn) call")
+  g = gws[0]
+  defs = rd.reaching(p_info, g.id) - {H.ReachDefs.ENTRY}
+  if not defs:
+    run.ob(R2, fn.qualname, "no no-op filter on %s" % p_info, "every requested property reaches "
+           "the ModifyColumn doc action", True, fi=fn.fi, nontrivial=False)
+    return
+  comp, at = H.resolve(fn, du, rd, ast.Name(id=p_info, ctx=ast.Load()), g.id)
+  if not (isinstance(comp, ast.DictComp) and len(comp.generators) == 1 and len(defs) == 1):
+    raise AnalysisError("doModifyColumn: the rebinding of %s before the doc action is not a "
+                        "filtering comprehension / loop over its items" % p_info)
+  gen = comp.generators[0]
+  it = H.expand(fn, gen.iter)
+  if not (isinstance(it, ast.Call) and isinstance(it.func, ast.Attribute) and
+          it.func.attr == "items" and isinstance(it.func.value, ast.Name) and
+          it.func.value.id == p_info and isinstance(gen.target, ast.Tuple) and
+          len(gen.target.elts) == 2 and text(comp.key) == text(gen.target.elts[0]) and
+          text(comp.value) == text(gen.target.elts[1])):
+    raise AnalysisError("doModifyColumn: filter of %s not recognised (%s)" % (p_info, short(comp)))
+  kname, vname = text(gen.target.elts[0]), text(gen.target.elts[1])
+  # the dict of the schema's current values
+  def is_old_dict(f, e):
+    d = H.deref(f, e)
+    return isinstance(d, ast.Call) and endswith(f.name(d) or dotted(d.func), "col_to_dict")
+
+  def verdict(f, e, k, v, olds, depth=0):
+    """'ne' / 'eq': e is true exactly when the requested value differs from / equals the schema's;
+    'normalised': it compares transformed operands; None: not recognised."""
+    flip = {"eq": "ne", "ne": "eq"}
+    if depth > 4:
+      return None
+    if isinstance(e, ast.Name):
+      d = H.alias_value(f, e.id, pure_only=False)
+      return verdict(f, d, k, v, olds, depth + 1) if d is not None else None
+    if isinstance(e, ast.UnaryOp) and isinstance(e.op, ast.Not):
+      r = verdict(f, e.operand, k, v, olds, depth + 1)
+      return flip.get(r, r)
+    def role(x):
+      """'value' / 'old' for the two operands, 'value*' / 'old*' when wrapped in a call."""
+      x0 = x
+      if isinstance(x, ast.Name):
+        if x.id == v:
+          return "value"
+        d = H.alias_value(f, x.id, pure_only=False)
+        if d is None and x.id in olds:
+          return "old"
+        x = d if d is not None else x
+      if isinstance(x, ast.Name) and x.id in olds:
+        return "old"
+      if isinstance(x, ast.Call) and isinstance(x.func, ast.Attribute) and x.func.attr == "get" \
+          and x.args and text(x.args[0]) == k and is_old_dict(f, x.func.value) and \
+          (len(x.args) == 1 or text(x.args[1]) == v):
+        return "old"
+      if isinstance(x, ast.Subscript) and text(x.slice) == k and is_old_dict(f, x.value):
+        return "old"
+      # a transformation of one of the operands: which operand occurs inside (maximal matches)
+      def inside(y):
+        out = set()
+        for ch in ast.iter_child_nodes(y):
+          if isinstance(ch, (ast.Name, ast.Call, ast.Subscript, ast.Attribute)):
+            r = role(ch)
+            if r is not None:
+              out.add(r.rstrip("*"))
+              continue
+          out |= inside(ch)
+        return out
+      found = inside(x)
+      return (found.pop() + "*") if len(found) == 1 else None
+    if isinstance(e, ast.Compare) and len(e.ops) == 1 and \
+        isinstance(e.ops[0], (ast.Eq, ast.NotEq)):
+      rs = {role(e.left), role(e.comparators[0])}
+      if rs == {"value", "old"}:
+        return "eq" if isinstance(e.ops[0], ast.Eq) else "ne"
+      if all(r is not None for r in rs) and {r.rstrip("*") for r in rs} == {"value", "old"}:
+        return "normalised"
+      return None
+    if isinstance(e, ast.BoolOp):
+      # `k not in old or old[k] != v` / `k in old and old[k] == v`
+      rest = [x for x in e.values if not (isinstance(x, ast.Compare) and len(x.ops) == 1 and
+                                          isinstance(x.ops[0], (ast.In, ast.NotIn)) and
+                                          text(x.left) == k and is_old_dict(f, x.comparators[0]))]
+      if len(rest) == 1:
+        return verdict(f, rest[0], k, v, olds, depth + 1)
+      return None
+    if isinstance(e, ast.Call) and isinstance(e.func, ast.Name) and not e.keywords and \
+        [text(a) for a in e.args] == [k, v]:
+      # a local predicate (nested function or lambda) of the key and the requested value
+      target = None
+      for x in ast.walk(f.node):
+        if isinstance(x, ast.FunctionDef) and x.name == e.func.id and x is not f.node:
+          target = x
+      lam = H.alias_value(f, e.func.id, pure_only=False)
+      if target is None and isinstance(lam, ast.Lambda):
+        ps = [a.arg for a in lam.args.args]
+        return verdict(f, lam.body, ps[0], ps[1], olds, depth + 1) if len(ps) == 2 else None
+      if target is None or len(target.args.args) != 2:
+        return None
+      pk, pv = [a.arg for a in target.args.args]
+      # locals of the predicate that hold the schema's value
+      hold = set(olds)
+      for x in ast.walk(target):
+        if isinstance(x, ast.Assign) and len(x.targets) == 1 and \
+            isinstance(x.targets[0], ast.Name):
+          c = x.value
+          if isinstance(c, ast.Call) and isinstance(c.func, ast.Attribute) and \
+              c.func.attr == "get" and c.args and text(c.args[0]) == pk and \
+              is_old_dict(f, c.func.value):
+            hold.add(x.targets[0].id)
+          elif isinstance(c, ast.Subscript) and text(c.slice) == pk and is_old_dict(f, c.value):
+            hold.add(x.targets[0].id)
+      rets = [x.value for x in ast.walk(target) if isinstance(x, ast.Return)]
+      vs = [verdict(f, r, pk, pv, hold, depth + 1) if r is not None else None for r in rets]
+      if "normalised" in vs:
+        return "normalised"
+      if vs and all(x == vs[0] for x in vs) and vs[0] in ("eq", "ne"):
+        return vs[0]
+      return None
+    return None
+  vs = [verdict(fn, t, kname, vname, set()) for t in gen.ifs]
+  if any(x is None for x in vs):
+    raise AnalysisError("doModifyColumn: cannot interpret the no-op filter `%s`"
+                        % short(gen.ifs[vs.index(None)], 80))
+  ok = all(x == "ne" for x in vs)
+  run.ob(R2, fn.qualname, "%s = {k: v for k, v in %s.items() if <schema value> != v}"
+         % (p_info, p_info), "a requested property is dropped as unchanged only when it equals "
+         "the schema's current value (plain comparison, nothing normalised): otherwise the "
+         "column record gets a value the schema never sees", ok, fi=fn.fi,
+         witness=None if ok else "filter: %s" % "; ".join(short(t, 70) for t in gen.ifs))
 
 
 def _r2_update_translation(run, R2, w, mprops):
@@ -626,8 +770,6 @@ def r3_rebuild_and_assert(run, w):
   def asserts_in(I, nodes):
     return {n.id for (n, c, nm) in I.calls() if nm == "self.assert_schema_consistent" and
             n.id in nodes}
-  lp = loop_of(ncfg)
-  body = region(NI, lp.stmt.body)
   def dispatches(f, c, nm):
     """the user action is applied: self._apply_one_user_action(...), or the dispatch it consists
     of, getattr(self.user_actions, <name>)(*user_action), written in place"""
@@ -636,9 +778,18 @@ def r3_rebuild_and_assert(run, w):
     g = H.deref(f, c.func)
     return isinstance(g, ast.Call) and dotted(g.func) == "getattr" and g.args and \
         endswith(f.name(g.args[0]) or "", "user_actions", "_useractions")
-  applies = {n.id for (n, c, nm) in NI.calls() if dispatches(NI.owner[n.id], c, nm)} & body
-  if not applies:
-    raise AnalysisError("apply_user_actions: _apply_one_user_action not called in the loop")
+  all_applies = {n.id for (n, c, nm) in NI.calls() if dispatches(NI.owner[n.id], c, nm)}
+  if not all_applies:
+    raise AnalysisError("apply_user_actions: no call that applies a user action found")
+  # the loop over the user actions: the innermost `for` (of the function or of a private helper
+  # read in place) around the application
+  loops = [(len(region(NI, n.stmt.body)), n) for n in ncfg.nodes if n.kind == "for" and
+           all_applies & region(NI, n.stmt.body)]
+  if not loops:
+    raise AnalysisError("apply_user_actions: loop over the user actions not found")
+  lp = min(loops, key=lambda x: x[0])[1]
+  body = region(NI, lp.stmt.body)
+  applies = all_applies & body
   checks = asserts_in(NI, body)
   is_assert = lambda c, nm, f: isinstance(c.func, ast.Attribute) and \
       c.func.attr == "assert_schema_consistent"
@@ -667,8 +818,7 @@ def r3_rebuild_and_assert(run, w):
   undo = {n.id for (n, c, nm) in XI.calls() if nm == "self._undo_to_checkpoint"}
   hbody = set()
   for n in xcfg.nodes:
-    if n.kind == "handler" and XI.owner[n.id] is fn and \
-        any(u in xcfg.reach_after({n.id}) for u in undo):
+    if n.kind == "handler" and any(u in xcfg.reach_after({n.id}) for u in undo):
       hbody |= region(XI, n.stmt.body)
   undo &= hbody
   checks_h = asserts_in(XI, hbody)
@@ -836,6 +986,14 @@ VARIANTS = [
   ("summary-column-rename-not-applied-to-schema", U,
    "      if has_diff_value(values, 'colId', c.colId):\n        self._do_doc_action(actions.RenameColumn(",
    "      if has_diff_value(values, 'colId', c.colId) and not c.summarySourceCol:\n        self._do_doc_action(actions.RenameColumn(",
+   "C08-R2"),
+  ("noop-filter-ignores-formula-whitespace", U,
+   "    col_info = {k: v for k, v in col_info.items() if old_col_info.get(k, v) != v}",
+   "    def is_unchanged(key, value):\n      old_value = old_col_info.get(key, value)\n      if key == 'formula' and isinstance(old_value, str) and isinstance(value, str):\n        return old_value.strip() == value.strip()\n      return old_value == value\n\n    col_info = {k: v for k, v in col_info.items() if not is_unchanged(k, v)}",
+   "C08-R2"),
+  ("noop-filter-compares-as-text", U,
+   "    col_info = {k: v for k, v in col_info.items() if old_col_info.get(k, v) != v}",
+   "    col_info = {k: v for k, v in col_info.items() if str(old_col_info.get(k, v)) != str(v)}",
    "C08-R2"),
   ("col-to-dict-default-skips-reverse", SC,
    "  if col.reverseColId or include_default:", "  if col.reverseColId:", "C08-R2"),
